@@ -94,6 +94,12 @@ def run(ctx: Ctx, env):
     from .c06 import check_token_actions
     from .c15 import _check_chain
     check_token_actions(ctx, env, "R0.literal-values-as-written")
+    from .common import check_mutable_defaults
+    check_mutable_defaults(ctx, env, ("odata_query.django",), "R6.no-state-shared-between-calls", "a later translation depends on an earlier one")
+    # the Django handlers refuse ill-typed and accept well-typed arguments through typing.typecheck / infer_type: C18's rules are a precondition
+    from . import c18 as _c18
+    from .c04 import _SubCtx
+    _c18.run(_SubCtx(ctx, only={"R1.return-type", "R2.infer-type-of-call", "R3.typecheck"}, rename=lambda r: "R0.typing-" + r.split(".", 1)[1]), env)
     from .c19 import check_py_val_case
     check_py_val_case(ctx, env, "R0.literal-values-independent-of-case")
     _check_chain(ctx, env, "django.apply_odata_query", "odata_query.django.shorthand", "apply_odata_query", "AstToDjangoQVisitor")
